@@ -14,6 +14,14 @@ import tempfile
 from concurrent.futures import ThreadPoolExecutor
 
 V = pathlib.Path(__file__).resolve().parent.parent
+CHK = V            # where the checker is run from; a frozen copy when VERIF_SNAPSHOT is set, so that editing /verif meanwhile is harmless
+if os.environ.get("VERIF_SNAPSHOT"):
+    CHK = pathlib.Path(tempfile.mkdtemp(prefix="vsnap."))
+    for n in ("check", "check.py", "properties.jsonl", "known_findings.json"):
+        shutil.copy(V / n, CHK / n)
+    shutil.copytree(V / "sa", CHK / "sa", ignore=shutil.ignore_patterns("__pycache__"))
+    import atexit
+    atexit.register(shutil.rmtree, CHK, True)
 ALL = [f"C{i:02d}" for i in range(1, 21)]
 
 
@@ -29,7 +37,7 @@ def run_checks(patch, props):
         env = dict(os.environ, VERIF_SCRATCH="1")
 
         def one(p):
-            rr = subprocess.run([str(V / "check"), p, "--root", f"{d}/src/pyoma2"], capture_output=True, text=True, env=env)
+            rr = subprocess.run([str(CHK / "check"), p, "--root", f"{d}/src/pyoma2"], capture_output=True, text=True, env=env)
             lines = [l.strip()[:260] for l in rr.stdout.splitlines() if l.strip().startswith(("violated:", "ANALYSIS-ERROR"))]
             return p, {0: "silent", 1: "VIOLATION", 2: "undecided"}.get(rr.returncode, str(rr.returncode)), lines[:3]
         with ThreadPoolExecutor(8) as ex:
